@@ -1013,7 +1013,9 @@ func (p *parser) parseIterateAssignNode() (*a.Node, error) {
 	if op := o.Operator(); op != t.IDEq {
 		return nil, fmt.Errorf(`parse: expected "=", got %q at %s:%d`, op.Str(p.tm), p.filename, p.line())
 	}
-	if lhs := o.LHS(); lhs.Operator() != 0 {
+	if lhs := o.LHS(); lhs == nil {
+		return nil, fmt.Errorf(`parse: expected "variable = value", got %q at %s:%d`, o.RHS().Str(p.tm), p.filename, p.line())
+	} else if lhs.Operator() != 0 {
 		return nil, fmt.Errorf(`parse: expected variable, got %q at %s:%d`, lhs.Str(p.tm), p.filename, p.line())
 	}
 	if rhs := o.RHS(); rhs.Effect() != 0 {
